@@ -3,6 +3,7 @@ package main
 // Forward symbolic executor over the typed AST.
 
 import (
+	"os"
 	"fmt"
 	"go/ast"
 	"go/token"
@@ -38,6 +39,7 @@ type Obligation struct {
 	GoalText string
 	smtKeep  string
 	smtFull  string
+	smtQF    string // sliced query with every quantified hypothesis dropped (first, cheap attempt)
 	logic    string
 	members  []*Obligation
 	batch    *Obligation
@@ -96,6 +98,7 @@ type closure struct {
 }
 
 type Exec struct {
+	qmemo         map[*Term]bool
 	eng           *Engine
 	b             *TermBank
 	mode          string
@@ -442,6 +445,13 @@ func (x *Exec) havocHeap(st *State, why string, keep func(key string) bool) {
 
 // ---------- merging
 
+func (x *Exec) quantMemo() map[*Term]bool {
+	if x.qmemo == nil {
+		x.qmemo = map[*Term]bool{}
+	}
+	return x.qmemo
+}
+
 func (x *Exec) merge2(a, c *State) *State {
 	if a == nil {
 		return c
@@ -456,7 +466,16 @@ func (x *Exec) merge2(a, c *State) *State {
 	ca := x.b.And(a.pc[k:]...)
 	cc := x.b.And(c.pc[k:]...)
 	n := &State{}
-	n.pc = append(append([]*Term{}, a.pc[:k]...), x.b.Or(ca, cc))
+	if hasQuant(ca, x.quantMemo()) {
+		// a quantified path condition would end up inside every merged value
+		// (ite conditions) and make all later goals quantified: name the
+		// choice with a fresh selector instead
+		sel := x.b.Fresh("sel", BoolSort)
+		n.pc = append(append([]*Term{}, a.pc[:k]...), x.b.Or(x.b.And(sel, ca), x.b.And(x.b.Not(sel), cc)))
+		ca = sel
+	} else {
+		n.pc = append(append([]*Term{}, a.pc[:k]...), x.b.Or(ca, cc))
+	}
 	n.env = map[types.Object]*Value{}
 	for o, va := range a.env {
 		if vc, ok := c.env[o]; ok {
@@ -635,6 +654,25 @@ func (x *Exec) noMergeFor(s ast.Stmt) bool {
 }
 
 func (x *Exec) execStmt(st *State, s ast.Stmt) *State {
+	if st != nil && x.spec == 0 && x.noSafety == 0 {
+		if c := x.eng.cf.Contracts[x.frame().qual]; c != nil && len(c.AssertBefore) > 0 && !x.infeasible(st) {
+			switch s.(type) {
+			case *ast.AssignStmt, *ast.ExprStmt, *ast.IncDecStmt, *ast.DeclStmt, *ast.ReturnStmt:
+				txt := x.eng.srcText(s)
+				for _, aa := range c.AssertBefore {
+					if strings.HasPrefix(txt, aa.Anchor) {
+						x.anchorHits["assert:"+aa.Anchor]++
+						es := st.clone()
+						x.skolem = true
+						g := x.evalClauseIn(es, aa.Cl, s.Pos(), x.frame().qual)
+						x.skolem = false
+						x.oblige(st, "assert", aa.Cl.Name, g, s.Pos(), aa.Cl.Props)
+						x.assume(st, g)
+					}
+				}
+			}
+		}
+	}
 	out := x.execStmt1(st, s)
 	if out != nil && x.spec == 0 && x.noSafety == 0 {
 		if c := x.eng.cf.Contracts[x.frame().qual]; c != nil && len(c.GhostAfter) > 0 {
@@ -653,7 +691,17 @@ func (x *Exec) execStmt(st *State, s ast.Stmt) *State {
 	return out
 }
 
+var traceOn = os.Getenv("GOVC_TRACE") != ""
+
 func (x *Exec) execStmt1(st *State, s ast.Stmt) *State {
+	if traceOn {
+		txt := x.eng.srcText(s)
+		if i := strings.IndexByte(txt, '\n'); i >= 0 {
+			txt = txt[:i]
+		}
+		dead := st == nil || x.infeasible(st)
+		fmt.Fprintf(os.Stderr, "TRACE %s dead=%v failed=%v | %s\n", x.eng.fset.Position(s.Pos()), dead, x.failed != nil, txt)
+	}
 	if st == nil || x.infeasible(st) {
 		return nil
 	}
@@ -1523,6 +1571,18 @@ func (x *Exec) callFrame(c *ast.CallExpr, fi *frameInfo) {
 		}
 	}
 	if callee != nil {
+		if fq := funcQual(callee); (fq == "encoding/gob.Decoder.Decode" || fq == "encoding/json.Unmarshal") && len(c.Args) > 0 {
+			// library model writes the pointee of the last argument
+			if p, ok := x.eng.info.TypeOf(c.Args[len(c.Args)-1]).Underlying().(*types.Pointer); ok {
+				if _, isS := p.Elem().Underlying().(*types.Struct); isS {
+					fi.heapKeys[structName(p.Elem())] = true
+				} else {
+					fi.heapKeys["cell."+types.TypeString(p.Elem(), nil)] = true
+				}
+			} else {
+				fi.heapAll = true
+			}
+		}
 		if ct := x.eng.cf.Contracts[funcQual(callee)]; ct != nil && len(ct.Writes) > 0 {
 			sig := callee.Type().(*types.Signature)
 			for i := 0; i < sig.Params().Len() && i < len(c.Args); i++ {
